@@ -76,9 +76,11 @@ func init() {
 		Assumptions: []string{"Go memory model edges: go statement, WaitGroup Done->Wait, critical sections of one mutex totally ordered; the semaphore is taken at its maximal capacity (concurrency >= number of checkers), its channel edges are not used for ordering",
 			"Checker.Check is summarised as: reads the shared syntax/types/context, writes checker-owned state only (established by C05)",
 			"3 workers / 3 concurrent passes; branches inside the walked functions are over-approximated (all instructions of all blocks are events)"}}
-	properties["C17"] = &property{ID: "C17", Level: "model_checking", Kinds: []string{"groups"},
+	properties["C17"] = &property{ID: "C17", Level: "model_checking", Kinds: []string{"groups"}, Extra: runC17Data,
 		Harnesses: []harness{
 			{Name: "gsxC17Groups", Pkg: "checkers", Quick: map[string]int{"strlen": 4, "paths": 4000, "wall_s": 120}, ReplayFn: replayC17Groups, NoValidate: true, MustReach: []string{"initialised"}},
+			{Name: "gsxC17DocList", Pkg: "cmd/go-critic", Quick: map[string]int{"strlen": 9, "paths": 400, "wall_s": 120}, ReplayFn: replayC17Doc, NoValidate: true, MustReach: []string{"main ended"}},
+			{Name: "gsxC17DocList", Pkg: "cmd/gocritic", Quick: map[string]int{"strlen": 9, "paths": 400, "wall_s": 120}, ReplayFn: replayC17Doc, NoValidate: true, MustReach: []string{"main ended"}},
 		},
 		Assumptions: []string{"the rule engine is a model: LoadFromIR records the group filter's answers for 1-2 symbolic rule groups, LoadedGroups returns them",
 			"'precompiled data equals compiled source' and 'documentation lists exactly the registered checkers' are artefact equalities without a symbolic dimension: not covered (see DESIGN.md)"}}
